@@ -352,7 +352,8 @@ KEY_STYLES = {
     "punct": ['a"b', "a'b", "a\\b", "a b", "a.b", "$ref", "@type", "#text", "a/b", "a:b", "a+b", "a[0]", "a{b}", "a\tb", "a\nb",
               'x"""y', "x'''y", "a\\", "a\\\\b", "a%sb", "a{{b}}", "a{%b%}"],
     "nonascii": ["données", "Ünï", "ключ", "Ключ", "λέξη", "straße", "naïve", "Բառ", "ßeta", "émigré", "ñandú", "ÇA", "œuvre",
-                 "ключ_поля", "dataЖ", "Жdata", "x名前", "café_au_lait"],
+                 "ключ_поля", "dataЖ", "Жdata", "x名前", "café_au_lait",
+                 "cafe\u0301", "prix-cafe\u0301", "A\u030angstrom", "\u212aelvin", "\u2126hm", "nai\u0308ve", "e\u0301te\u0301"],
     "plural": ["items", "item", "children", "child", "data", "datum", "status", "statuses", "address", "addresses", "series",
                "news", "person", "people", "men", "man", "indices", "index", "boxes", "box"],
 }
